@@ -425,6 +425,341 @@ theorem api_rows_readable (f : Facts) (op : COp) : ∃ g, translate f op = .ok g
   | ack => exact ⟨_, Or.inl (translate_ack f)⟩
   | reset => exact ⟨_, Or.inl (translate_reset f)⟩
 
+/-! ## 3. lifting the editor theorems to C call histories -/
+
+/-- the editor operation(s) a glue call stands for (return codes dropped) -/
+def toOps : EdCall → List (Op L)
+  | .none => []
+  | .key ev => [.key ev]
+  | .select n => [.select n]
+  | .startSelecting => [.startSelecting]
+  | .cancelSelecting => [.cancelSelecting]
+  | .commit => [.commit]
+  | .clear => [.clear]
+  | .ack => [.ack]
+  | .clearSyl => [.clearSyl]
+  | .jump w => [.jump w]
+
+theorem toOps_valid (call : EdCall) : ∀ op ∈ (toOps call : List (Op L)), C01.OpValid op := by
+  cases call <;> simp [toOps, C01.OpValid]
+
+theorem run_one (e : Editor D L) (op : Op L) : e.run env [op] = e.apply env op := by
+  simp only [Editor.run]
+  cases e.apply env op <;> rfl
+
+/-- **the C call translates to an editor operation list**: the editor after the glue call is the editor after that
+    history of public `Editor` operations -/
+theorem runCall_run (e : Editor D L) (call : EdCall) :
+    (runCall env e call).map (·.1) = e.run env (toOps call) := by
+  cases call with
+  | none => rfl
+  | key ev => rw [toOps, run_one]; simp only [runCall, Editor.apply]; cases e.processKey env ev <;> rfl
+  | select n => rw [toOps, run_one]; simp only [runCall, Editor.apply]
+  | startSelecting => rw [toOps, run_one]; simp only [runCall, Editor.apply]
+  | cancelSelecting => rw [toOps, run_one]; rfl
+  | commit => rw [toOps, run_one]; simp only [runCall, Editor.apply]
+  | clear => rw [toOps, run_one]; rfl
+  | ack => rw [toOps, run_one]; rfl
+  | clearSyl => rw [toOps, run_one]; rfl
+  | jump w => rw [toOps, run_one]; simp only [runCall, Editor.apply]
+
+theorem asciiItem_mem (tbl : List (Nat × Nat × Nat)) (n : Nat) : asciiItem tbl n ∈ (0, 0) :: tbl.map (·.2) := by
+  unfold asciiItem
+  cases h : tbl.find? (·.1 == n) with
+  | none => exact List.mem_cons_self ..
+  | some item => exact List.mem_cons_of_mem _ (List.mem_map_of_mem (List.mem_of_find?_eq_some h))
+
+theorem items_all_keyboards :
+    allKeyboards.all (fun kb => ((0, 0) :: keycodeMap.map (·.2) ++ numlockMap.map (·.2)).all
+      (fun p => (mapWithMod kb p.1 p.2).isSome)) = true := by
+  decide +kernel
+
+theorem ctrl_codes_all_keyboards :
+    allKeyboards.all (fun kb => ctrlNumTable.all (fun p => (mapWithMod kb p.2 ctrlNumMods).isSome)) = true := by
+  decide +kernel
+
+theorem keyGlue_some {r : Option KeyEv} (h : r.isSome = true) : ∃ g, keyGlue r = .ok g := by
+  cases r with
+  | none => cases h
+  | some ev => exact ⟨_, rfl⟩
+
+theorem lookupNat_mem {a b : Nat} : ∀ {l : List (Nat × Nat)}, lookupNat a l = some b → (a, b) ∈ l
+  | [], h => by cases h
+  | (k, v) :: es, h => by
+    unfold lookupNat at h
+    split at h
+    · next hk => injection h with h; rw [← h, eq_of_beq hk]; exact List.mem_cons_self ..
+    · exact List.mem_cons_of_mem _ (lookupNat_mem h)
+
+/-- **the glue itself never panics** on a valid keyboard: `.expect("invalid keycode")` cannot fire, whatever `int`
+    is passed — every key code the tables can produce is on every keyboard matrix -/
+theorem translate_total {f : Facts} (hkb : KbValid f.kb) (op : COp) : ∃ g, translate f op = .ok g := by
+  have hitems := List.all_eq_true.mp (List.all_eq_true.mp items_all_keyboards _ hkb)
+  cases op with
+  | named h => rw [named_glue hkb h]; unfold expectedNamed; split <;> exact ⟨_, rfl⟩
+  | default k =>
+    rw [translate_default]
+    apply keyGlue_some
+    have hm := asciiItem_mem keycodeMap (narrow 0 (remapSelKey f k))
+    exact hitems _ (by
+      rcases List.mem_cons.mp hm with h | h
+      · rw [h]; exact List.mem_cons_self ..
+      · exact List.mem_cons_of_mem _ (List.mem_append_left _ h))
+  | numlock k =>
+    rw [translate_numlock]
+    apply keyGlue_some
+    have hm := asciiItem_mem numlockMap (narrow 0 k)
+    exact hitems _ (by
+      rcases List.mem_cons.mp hm with h | h
+      · rw [h]; exact List.mem_cons_self ..
+      · exact List.mem_cons_of_mem _ (List.mem_append_right _ h))
+  | ctrlNum k =>
+    show ∃ g, (match lookupNat (narrow narrowCtrlNum k) ctrlNumTable with
+      | none => Outcome.ok ({ call := EdCall.none, rule := RcRule.const ctrlNumElse } : Glue)
+      | some code => keyGlue (mapWithMod f.kb code ctrlNumMods)) = .ok g
+    cases hl : lookupNat (narrow narrowCtrlNum k) ctrlNumTable with
+    | none => exact ⟨_, rfl⟩
+    | some code =>
+      apply keyGlue_some
+      exact List.all_eq_true.mp (List.all_eq_true.mp ctrl_codes_all_keyboards _ hkb) _ (lookupNat_mem hl)
+  | candOpen => exact ⟨_, translate_candOpen f⟩
+  | candClose => exact ⟨_, translate_candClose f⟩
+  | candChoose i => exact ⟨_, translate_candChoose f i⟩
+  | candListFirst => exact ⟨_, (translate_candList f).1⟩
+  | candListLast => exact ⟨_, (translate_candList f).2.1⟩
+  | candListNext => exact ⟨_, (translate_candList f).2.2.1⟩
+  | candListPrev => exact ⟨_, (translate_candList f).2.2.2⟩
+  | commitPreedit => exact ⟨_, translate_commitPreedit f⟩
+  | cleanPreedit => exact ⟨_, translate_cleanPreedit f⟩
+  | cleanBopomofo => exact ⟨_, translate_cleanBopomofo f⟩
+  | ack => exact ⟨_, translate_ack f⟩
+  | reset => exact ⟨_, translate_reset f⟩
+
+variable {G : D → Prop}
+
+/-- **C01 at the C level, one call.**  From every context whose editor satisfies the safety invariant, EVERY modelled
+    C call with ANY `int` argument returns — no panic, no exhausted fuel — the invariant holds again, and the glue's
+    own state (keyboard, selection keys) is untouched -/
+theorem C_step (hE : C01.EnvOK env G) (c : CCtx D L) (hkb : KbValid c.kb) (hi : C01.SafeInv env G c.editor) (op : COp) :
+    ∃ c' rc, c.apply env op = .ok (c', rc) ∧ C01.SafeInv env G c'.editor ∧ c'.kb = c.kb ∧ c'.selKeys = c.selKeys := by
+  obtain ⟨g, hg⟩ := translate_total (f := c.facts) hkb op
+  obtain ⟨e', hrun, hi'⟩ := C01.C01_run hE (toOps g.call) c.editor hi (toOps_valid g.call)
+  rw [← runCall_run] at hrun
+  unfold CCtx.apply
+  rw [hg]
+  dsimp only
+  cases hr : runCall env c.editor g.call with
+  | ok x =>
+    obtain ⟨e1, b⟩ := x
+    rw [hr] at hrun
+    have : e1 = e' := by injection hrun
+    subst this
+    exact ⟨{ c with editor := e1 }, g.rule.rc b, rfl, hi', rfl, rfl⟩
+  | panic p => rw [hr] at hrun; cases hrun
+  | outOfFuel => rw [hr] at hrun; cases hrun
+
+/-- **C01 at the C level, every history of C calls** (induction): no sequence of modelled C calls, with any
+    arguments, panics or hangs; one return value per call -/
+theorem C_run (hE : C01.EnvOK env G) (ops : List COp) :
+    ∀ c : CCtx D L, KbValid c.kb → C01.SafeInv env G c.editor →
+      ∃ c' rcs, c.run env ops = .ok (c', rcs) ∧ rcs.length = ops.length ∧ C01.SafeInv env G c'.editor := by
+  induction ops with
+  | nil => intro c _ hi; exact ⟨c, [], rfl, rfl, hi⟩
+  | cons op ops ih =>
+    intro c hkb hi
+    obtain ⟨c1, rc, h1, hi1, hk1, _⟩ := C_step env hE c hkb hi op
+    obtain ⟨c2, rcs, h2, hl, hi2⟩ := ih c1 (by rw [hk1]; exact hkb) hi1
+    refine ⟨c2, rc :: rcs, ?_, by simp [hl], hi2⟩
+    simp only [CCtx.run]; rw [h1]; simp only; rw [h2]
+
+/-- a NULL context: the call returns -1 and there is nothing to change -/
+theorem null_context (op : COp) : CCtx.applyPtr env (none : Option (CCtx D L)) op = .ok (none, -1) := rfl
+
+/-! ### the result getters -/
+
+theorem checkIgnore_eq (c : CCtx D L) :
+    c.keystrokeCheckIgnore = if c.editor.shared.last = .ignore then 1 else 0 := rfl
+
+theorem checkAbsorb_eq (c : CCtx D L) :
+    c.keystrokeCheckAbsorb = if c.editor.shared.last = .absorb then 1 else 0 := rfl
+
+theorem processKey_last {e e' : Editor D L} {ev : KeyEvent} {b : KB} (h : e.processKey env ev = .ok (e', b)) :
+    e'.shared.last = b := by
+  rw [C06.processKey_eq] at h
+  cases hd : C06.dispatch env e ev with
+  | ok x =>
+    obtain ⟨sh, st⟩ := x
+    rw [hd] at h
+    simp only [C06.tail] at h
+    split at h
+    · cases h
+    · cases h
+    · injection h with h; injection h with h1 h2; rw [← h1, ← h2]
+  | panic p => rw [hd] at h; cases h
+  | outOfFuel => rw [hd] at h; cases h
+
+/-- **key results are truthful on the C getters**: after a key call, `chewing_keystroke_CheckIgnore` = 1 exactly when
+    the key was ignored, `chewing_keystroke_CheckAbsorb` = 1 exactly when absorbed, `chewing_commit_Check` = 1 exactly
+    when it committed (C02's third sentence), and none of the three exactly when the answer was a bell -/
+theorem C_getters_truthful (hH : C02.ConvHeadText env) {c : CCtx D L} {ev : KeyEvent} {e' : Editor D L} {b : KB}
+    (h : c.editor.processKey env ev = .ok (e', b)) :
+    (({ c with editor := e' } : CCtx D L).keystrokeCheckIgnore = 1 ↔ b = .ignore) ∧
+    (({ c with editor := e' } : CCtx D L).keystrokeCheckAbsorb = 1 ↔ b = .absorb) ∧
+    (({ c with editor := e' } : CCtx D L).commitCheck = 1 ↔ b = .commit) ∧
+    (({ c with editor := e' } : CCtx D L).bellObserved = true ↔ b = .bell) := by
+  have hl := processKey_last env h
+  have hc := C02.commit_string_iff_result env hH h
+  have h1 : (({ c with editor := e' } : CCtx D L).keystrokeCheckIgnore = 1 ↔ b = .ignore) := by
+    rw [checkIgnore_eq]; simp only [hl]; split <;> simp_all
+  have h2 : (({ c with editor := e' } : CCtx D L).keystrokeCheckAbsorb = 1 ↔ b = .absorb) := by
+    rw [checkAbsorb_eq]; simp only [hl]; split <;> simp_all
+  have h3 : (({ c with editor := e' } : CCtx D L).commitCheck = 1 ↔ b = .commit) := by
+    unfold CCtx.commitCheck
+    rw [← hc]
+    cases e'.shared.commitBuf <;> simp
+  refine ⟨h1, h2, h3, ?_⟩
+  unfold CCtx.bellObserved
+  have e1 : (({ c with editor := e' } : CCtx D L).keystrokeCheckIgnore == 0) = decide (b ≠ .ignore) := by
+    rw [checkIgnore_eq]; simp only [hl]; split <;> simp_all
+  have e2 : (({ c with editor := e' } : CCtx D L).keystrokeCheckAbsorb == 0) = decide (b ≠ .absorb) := by
+    rw [checkAbsorb_eq]; simp only [hl]; split <;> simp_all
+  have e3 : (({ c with editor := e' } : CCtx D L).commitCheck == 0) = decide (b ≠ .commit) := by
+    unfold CCtx.commitCheck
+    cases hb : e'.shared.commitBuf with
+    | nil =>
+      have : b ≠ .commit := fun hcm => (hc.mpr hcm) hb
+      simp [this]
+    | cons x xs =>
+      have : b = .commit := hc.mp (by rw [hb]; simp)
+      simp [this]
+  rw [e1, e2, e3]
+  cases b <;> simp
+
+/-- **exactly one of ignore / absorb / commit / bell** is what the C getters show after a key call -/
+theorem C_result_exclusive (hH : C02.ConvHeadText env) {c : CCtx D L} {ev : KeyEvent} {e' : Editor D L} {b : KB}
+    (h : c.editor.processKey env ev = .ok (e', b)) :
+    let c' : CCtx D L := { c with editor := e' }
+    let flags := [decide (c'.keystrokeCheckIgnore = 1), decide (c'.keystrokeCheckAbsorb = 1),
+                  decide (c'.commitCheck = 1), c'.bellObserved]
+    (flags.filter id).length = 1 := by
+  obtain ⟨h1, h2, h3, h4⟩ := C_getters_truthful env hH h
+  intro c' flags
+  have f1 : decide (c'.keystrokeCheckIgnore = 1) = decide (b = .ignore) := by simp only [c', h1]
+  have f2 : decide (c'.keystrokeCheckAbsorb = 1) = decide (b = .absorb) := by simp only [c', h2]
+  have f3 : decide (c'.commitCheck = 1) = decide (b = .commit) := by simp only [c', h3]
+  have f4 : c'.bellObserved = decide (b = .bell) := by
+    cases hb : c'.bellObserved
+    · have : ¬ b = .bell := fun hh => by rw [h4.mpr hh] at hb; cases hb
+      simp [this]
+    · simp [h4.mp hb]
+  simp only [flags, f1, f2, f3, f4]
+  cases b <;> decide
+
+/-! ### C06's idle pass-through on the C observations -/
+
+/-- the thirteen handlers of the keys the property names -/
+def IdleHandler (h : Handler) : Prop :=
+  h = .enter ∨ h = .esc ∨ h = .tab ∨ h = .backspace ∨ h = .del ∨ h = .left ∨ h = .right ∨ h = .up ∨ h = .down ∨
+  h = .home ∨ h = .end_ ∨ h = .pageUp ∨ h = .pageDown
+
+theorem idle_handler_event {h : Handler} (hh : IdleHandler h) : ∃ ev, docEvent h = some ev ∧ C06.IdleKey ev.code := by
+  unfold IdleHandler at hh
+  rcases hh with rfl | rfl | rfl | rfl | rfl | rfl | rfl | rfl | rfl | rfl | rfl | rfl | rfl <;>
+    exact ⟨_, rfl, by unfold C06.IdleKey; decide⟩
+
+/-- **C06, pass-through, on the C API.**  With nothing being composed (state Entering, empty pre-edit) each of the
+    thirteen named handlers returns 0, `chewing_keystroke_CheckIgnore` then answers 1, `chewing_commit_Check` 0, and
+    the state, the composition editor, the phonetic buffer, the options, the engine, the chosen alternative, the
+    keyboard and the selection keys are exactly as before; the notification is empty -/
+theorem C_idle_passthrough (c : CCtx D L) (hkb : KbValid c.kb) {h : Handler} (hh : IdleHandler h)
+    (hs : c.editor.state = .entering) (hempty : c.editor.shared.com.isEmpty = true)
+    (hcur : c.editor.shared.com.cursor ≤ c.editor.shared.com.len) :
+    ∃ c', c.apply env (.named h) = .ok (c', 0) ∧ c'.keystrokeCheckIgnore = 1 ∧ c'.keystrokeCheckAbsorb = 0 ∧
+      c'.commitCheck = 0 ∧ c'.editor.state = c.editor.state ∧ c'.editor.shared.com = c.editor.shared.com ∧
+      c'.editor.shared.syl = c.editor.shared.syl ∧ c'.editor.shared.options = c.editor.shared.options ∧
+      c'.editor.shared.engine = c.editor.shared.engine ∧ c'.editor.shared.nth = c.editor.shared.nth ∧
+      c'.editor.shared.noticeBuf = [] ∧ c'.kb = c.kb ∧ c'.selKeys = c.selKeys := by
+  obtain ⟨ev, hd, hk⟩ := idle_handler_event hh
+  obtain ⟨e', hp⟩ := C06.idle_passthrough env hs hempty hcur hk
+  have hl := processKey_last env hp
+  obtain ⟨p1, p2, p3, p4, p5, p6, p7, p8, _⟩ := C06.ignore_persistent env hp
+  refine ⟨{ c with editor := e' }, ?_, ?_, ?_, ?_, p1, p2, p3, p4, p5, p6, p7, rfl, rfl⟩
+  · rw [named_handler env c hkb h ev hd]; unfold keyStep; rw [hp]; rfl
+  · rw [checkIgnore_eq]; simp only [hl]; rfl
+  · rw [checkAbsorb_eq]; simp only [hl]; rfl
+  · unfold CCtx.commitCheck; simp only [p8]; rfl
+
+/-- **C07 "choosing i" on the C API**: under an open list the `i`-th configured selection key, sent through
+    `chewing_handle_Default`, is ONE `process_keyevent` whose `Selecting::next` arm is `Selecting::select(i)` -/
+theorem selkey_chooses_position (c : CCtx D L) (hkb : KbValid c.kb) (k : Int) (i : Nat) (s : Selecting)
+    (hs : c.editor.state = .selecting s) (hi : c.selKeys.findIdx? (· == k) = some i) (h10 : i < 10) :
+    c.apply env (.default k) = keyStep env c (digitEvent i) ∧
+    ∀ sh : Shared D L, selectingNext env s sh (digitEvent i) =
+      (match Selecting.select env s sh i with
+       | .ok (s', sh', t) => .ok ⟨sh', s', t⟩
+       | .panic q => .panic q
+       | .outOfFuel => .outOfFuel) := by
+  refine ⟨selkey_acts_as_digit env c hkb k i (by unfold Editor.isSelecting; rw [hs]) hi h10, fun sh => ?_⟩
+  rw [digit_event_selects env s sh i h10]; rfl
+
 end
+
+/-! ## non-vacuity: every hypothesis above is satisfiable, and the model computes -/
+
+example : KbValid "qwerty" ∧ KbValid "dvorak_on_qwerty" := by unfold KbValid; decide
+
+/-- a fresh context over C06's toy environment -/
+def toyCtx : CCtx Unit Nat := { editor := C06.toyEditor }
+
+/-- idle pass-through: the hypotheses hold on a fresh context, for Enter -/
+example : ∃ c', toyCtx.apply C06.toyEnv (.named .enter) = .ok (c', 0) ∧ c'.keystrokeCheckIgnore = 1 ∧
+    c'.commitCheck = 0 := by
+  obtain ⟨c', h1, h2, _, h3, _⟩ :=
+    C_idle_passthrough C06.toyEnv toyCtx (by unfold KbValid; decide) (h := .enter) (Or.inl rfl) rfl (by decide) (by decide)
+  exact ⟨c', h1, h2, h3⟩
+
+/-- CtrlNum with a letter: -1, context unchanged (the hypothesis `¬ digit` holds for 'a', 256 + '2', -1) -/
+example : toyCtx.apply C06.toyEnv (.ctrlNum 97) = .ok (toyCtx, -1) ∧
+    toyCtx.apply C06.toyEnv (.ctrlNum (256 + 50)) = .ok (toyCtx, -1) ∧
+    toyCtx.apply C06.toyEnv (.ctrlNum (-1)) = .ok (toyCtx, -1) :=
+  ⟨ctrlNum_non_digit _ _ _ (by omega), ctrlNum_non_digit _ _ _ (by omega), ctrlNum_non_digit _ _ _ (by omega)⟩
+
+/-- an open list (the three-entry symbol table of C06, one entry per page) with the selection keys "asdfghjkl;":
+    `d` is position 2 and acts as the digit key `3` -/
+def listCtx : Option (CCtx Unit Nat) :=
+  match C06.pagedEditor.run C06.toyEnv [.key C06.keyGrave] with
+  | .ok e => some { editor := e, selKeys := [97, 115, 100, 102, 103, 104, 106, 107, 108, 59] }
+  | _ => none
+
+example : ∃ c s, listCtx = some c ∧ c.editor.state = .selecting s ∧ c.selKeys.findIdx? (· == (100 : Int)) = some 2 ∧
+    c.apply C06.toyEnv (.default 100) = keyStep C06.toyEnv c (digitEvent 2) := by
+  refine ⟨_, _, rfl, rfl, by decide, ?_⟩
+  exact selkey_acts_as_digit C06.toyEnv _ (by unfold KbValid; decide) 100 2 rfl (by decide) (by omega)
+
+/-- the same key with NO list open is the letter `d` -/
+example : translate toyCtx.facts (.default 100) =
+    .ok { call := .key { index := 29, code := 29, unicode := 100 }, rule := .const 0 } := by decide +kernel
+
+/-- out-of-range values are no characters: 256 + 'a' is the Unknown key, not `a` (FX2) -/
+example : toyCtx.apply C06.toyEnv (.default (256 + 97)) = keyStep C06.toyEnv toyCtx unknownEvent :=
+  default_out_of_range _ _ (by unfold KbValid; decide) _ (Or.inr (by omega)) (Or.inl rfl)
+
+/-- C01 lift: `EnvOK` and `SafeInv` are satisfiable (C01's toy environment), and a concrete history of C calls
+    computes its return codes: a letter key, CtrlNum with a non-digit (-1), clean_preedit_buf while a syllable is being
+    entered (-1), cand_list_next without a list (-1), cand_close (never fails: 0), DblTab (0), Reset (0),
+    commit_preedit_buf on an empty buffer (-1) -/
+example : ∃ c' rcs, (({ editor := C01.stdEditor [3] } : CCtx (List Nat) Nat).run C01.toyEnv
+      [.default 106, .ctrlNum 97, .cleanPreedit, .candListNext, .candClose, .named .dblTab, .reset, .commitPreedit]) =
+      .ok (c', rcs) ∧ rcs.length = 8 ∧ C01.SafeInv C01.toyEnv (fun _ => True) c'.editor :=
+  C_run C01.toyEnv C01.toyEnv_ok _ _ (by unfold KbValid; decide) (C01.stdEditor_inv (w := False) [3])
+
+example : ((({ editor := C01.stdEditor [3] } : CCtx (List Nat) Nat).run C01.toyEnv
+      [.default 106, .ctrlNum 97, .cleanPreedit, .candListNext, .candClose, .named .dblTab, .reset, .commitPreedit]).map
+      (·.2)) = .ok [0, -1, -1, -1, 0, 0, 0, -1] := by decide +kernel
+
+/-- the getters after a key: `j` is absorbed into the phonetic buffer — exactly one flag -/
+example : ∃ c', ({ editor := C01.stdEditor [3] } : CCtx (List Nat) Nat).apply C01.toyEnv (.default 106) = .ok (c', 0) ∧
+    c'.keystrokeCheckAbsorb = 1 ∧ c'.keystrokeCheckIgnore = 0 ∧ c'.commitCheck = 0 ∧ c'.bellObserved = false := by
+  refine ⟨_, rfl, ?_, ?_, ?_, ?_⟩ <;> decide +kernel
 
 end Chewing.C06CApi
